@@ -318,7 +318,23 @@ fn scenario(seed: u64, k: u64, out: &Out) {
         if w.dead {
             break;
         }
-        match rng.below(6) {
+        match rng.below(8) {
+            6 | 7 => {
+                w.pump(&mut adv, 10_000);
+                if w.dead {
+                    break;
+                }
+                let stored = w.c().storage.get_last_n_headers();
+                let tipn: u64 = w.c().storage.get_tip_header().raw().number().unpack();
+                let cands: Vec<u64> = stored.iter().map(|(n, _)| *n).filter(|n| *n + 1 < w.chains[net.main].tip() && *n >= 1).collect();
+                if ccfg.last_n >= 2 && !cands.is_empty() && w.chains[net.main].tip() == tipn {
+                    let at = *rng.pick(&cands);
+                    let extra = tipn - at + rng.range(1, 3) + ccfg.last_n;
+                    net.fork(&mut w, at, extra, rng.next_u64() | 1);
+                } else {
+                    net.grow(&mut w, 2);
+                }
+            }
             0 | 1 => net.grow(&mut w, rng.range(1, 12)),
             2 => {
                 let g = w.ccfg.last_n + rng.range(0, 3);
@@ -333,6 +349,10 @@ fn scenario(seed: u64, k: u64, out: &Out) {
             }
             4 => {
                 // shallow reorg so that reorg sections are requested
+                w.pump(&mut adv, 10_000);
+                if w.dead {
+                    break;
+                }
                 let stored = w.c().storage.get_last_n_headers();
                 let tipn: u64 = w.c().storage.get_tip_header().raw().number().unpack();
                 let cands: Vec<u64> = stored.iter().map(|(n, _)| *n).filter(|n| *n + 1 < w.chains[net.main].tip() && *n >= 1).collect();
